@@ -62,6 +62,11 @@ func RegCounter(name string) int {
 
 func CounterNames() []string { return counterNames }
 
+// RenameCounter gives a counter slot registered at init its final name (slots whose
+// names are only known once a lazily built table exists).  A name starting with '~'
+// marks a slot that was never named; reporters skip those.
+func RenameCounter(i int, name string) { counterNames[i] = name }
+
 // Run is the context of one simulated execution.
 type Run struct {
 	Property string
